@@ -11,9 +11,11 @@
   Both cover the hand-over to the weekly filler (BYDAY with plain weekdays, INTERVAL=1, no BYMONTHDAY, no BYSETPOS), where
   from the seed's day on the daily and the weekly instances are the same (`daily_of_weekly`, `weekly_of_daily`).
 
-  Hypothesis added to the brief's: `SeedOk r p` (a DATE seed has no BYHOUR/BYMINUTE/BYSECOND), stronger than `TimeOk`:
-  FALSE without it, e.g. r = { freq := 4, H := [9] }, p = 2020-01-01 (all day): fillDly r p 3 = 2020-01-01T09:00:00, …
-  timed instants, not of the seed's kind (`SameKind`); RFC 5545 has BYHOUR ignored there, the code does not ignore it.
+  History: a hypothesis `SeedOk r p` (a DATE seed has no BYHOUR/BYMINUTE/BYSECOND) used to be needed: the code did not
+  ignore these parts next to a DATE seed as RFC 5545 (and the specification's `TimeExp`) has it, e.g.
+  r = { freq := 4, H := [9] }, p = 2020-01-01 (all day) gave 2020-01-01T09:00:00, … timed instants, not of the seed's kind
+  (`SameKind`).  Since the repair of `make_enum` the code ignores them and the hypothesis is gone
+  (`fillDly_date_seed_byhour`).
 -/
 import Echse.Lemmas.RrDlyPos2
 import Echse.Lemmas.RrWlyRfc
@@ -101,7 +103,7 @@ theorem day_ge_of_not_lt {p x : Inst} (hp : WfInst p) (hy : 1901 ≤ p.y) (hk : 
     rw [e.1, e.2.1, e.2.2]; exact Int.le_refl _
 
 theorem fillDly_inst (r : Rule) (p : Inst) (n : Nat) (l : List Inst) (hr : WfRule r) (hp : WfInst p)
-    (hs : SeedOk r p) (_hn : n ≤ 64) (hy : 1901 ≤ p.y) (h : fillDly r p n = some l) :
+    (_hn : n ≤ 64) (hy : 1901 ≤ p.y) (h : fillDly r p n = some l) :
     ∀ x ∈ l, DailyInst r p x := by
   cases hcap : capNti r n with
   | none =>
@@ -112,12 +114,12 @@ theorem fillDly_inst (r : Rule) (p : Inst) (n : Nat) (l : List Inst) (hr : WfRul
     · obtain ⟨f1, f2, f3, -⟩ := handover_facts hr hh
       rw [fillDly_ho r p n nti hr hp hcap hh] at h
       intro x hx
-      obtain ⟨hw, hxy, hge⟩ := fillWly_sound' r p nti l hr hp hs hy h x hx
+      obtain ⟨hw, hxy, hge⟩ := fillWly_sound' r p nti l hr hp hy h x hx
       exact daily_of_weekly f2 f3 (day_ge_of_not_lt hp hy hw.1 hxy hge) hw
-    · exact dly_nh_sound r p n nti l hr hp hs hy hcap hh h
+    · exact dly_nh_sound r p n nti l hr hp hy hcap hh h
 
 theorem fillDly_complete_nopos (r : Rule) (p : Inst) (n : Nat) (l : List Inst) (hr : WfRule r) (hp : WfInst p)
-    (hs : SeedOk r p) (hn : n ≤ 64) (hy : 1901 ≤ p.y) (hpos : r.pos = []) (h : fillDly r p n = some l)
+    (hn : n ≤ 64) (hy : 1901 ≤ p.y) (hpos : r.pos = []) (h : fillDly r p n = some l)
     (x : Inst) (hx : DailyInst r p x) (hge : absOf p ≤ absOf x) (hle : ltP r.untl x = false) (hxy : x.y ≤ 2099) :
     x ∈ l ∨ (l.length = capOf r n ∧ ∀ z ∈ l, ltP z x = true) := by
   cases hcap : capNti r n with
@@ -132,36 +134,36 @@ theorem fillDly_complete_nopos (r : Rule) (p : Inst) (n : Nat) (l : List Inst) (
     · obtain ⟨f1, f2, f3, -⟩ := handover_facts hr hh
       rw [fillDly_ho r p n nti hr hp hcap hh] at h
       have hnti := (capNti_spec hr hcap).1
-      have := fillWly_complete_nopos r p nti l hr hp hs (by omega) hy hpos h x (weekly_of_daily f1 f2 hx) hge hle hxy
+      have := fillWly_complete_nopos r p nti l hr hp (by omega) hy hpos h x (weekly_of_daily f1 f2 hx) hge hle hxy
       have hc2 : capOf r nti = nti := by unfold capOf; rw [capNti_idem hcap]; rfl
       rw [hc2] at this
       exact this
-    · exact dly_nh_complete r p n nti l hr hp hs hy hpos hcap hh h x hx hge hle hxy
+    · exact dly_nh_complete r p n nti l hr hp hy hpos hcap hh h x hx hge hle hxy
 
 /-- C01, soundness of the daily filler: every instant written is an instance of the rule anchored at the seed and is
 chosen by BYSETPOS (`hf`: the rule's frequency, which `SetposOk` refers to, is DAILY — needed only with BYSETPOS) -/
 theorem fillDly_sound (r : Rule) (p : Inst) (n : Nat) (l : List Inst) (hr : WfRule r) (hp : WfInst p)
-    (hs : SeedOk r p) (hn : n ≤ 64) (hy : 1901 ≤ p.y) (hf : r.pos ≠ [] → r.freq = 4) (h : fillDly r p n = some l) :
+    (hn : n ≤ 64) (hy : 1901 ≤ p.y) (hf : r.pos ≠ [] → r.freq = 4) (h : fillDly r p n = some l) :
     ∀ x ∈ l, DailyInst r p x ∧ SetposOk r p x := by
   intro x hx
-  refine ⟨fillDly_inst r p n l hr hp hs hn hy h x hx, ?_⟩
+  refine ⟨fillDly_inst r p n l hr hp hn hy h x hx, ?_⟩
   by_cases hpos : r.pos = []
   · exact Or.inl hpos
   · cases hcap : capNti r n with
     | none =>
       rw [fillDly_none r p n hr hp hcap] at h
       cases h; cases hx
-    | some nti => exact dly_pos_sound r p n nti l hr hp hs hy (hf hpos) hpos hcap h x hx
+    | some nti => exact dly_pos_sound r p n nti l hr hp hy (hf hpos) hpos hcap h x hx
 
 /-- C01, completeness of the daily filler: an instance `x` chosen by BYSETPOS, at or after the seed, not after UNTIL and
 not after 2099 is in the result `l`, or `l` is full (`capOf r n` elements) and all of it comes before `x` -/
 theorem fillDly_complete (r : Rule) (p : Inst) (n : Nat) (l : List Inst) (hr : WfRule r) (hp : WfInst p)
-    (hs : SeedOk r p) (hn : n ≤ 64) (hy : 1901 ≤ p.y) (hf : r.pos ≠ [] → r.freq = 4) (h : fillDly r p n = some l)
+    (hn : n ≤ 64) (hy : 1901 ≤ p.y) (hf : r.pos ≠ [] → r.freq = 4) (h : fillDly r p n = some l)
     (x : Inst) (hx : DailyInst r p x) (hsp : SetposOk r p x) (hge : absOf p ≤ absOf x)
     (hle : ltP r.untl x = false) (hxy : x.y ≤ 2099) :
     x ∈ l ∨ (l.length = capOf r n ∧ ∀ z ∈ l, ltP z x = true) := by
   by_cases hpos : r.pos = []
-  · exact fillDly_complete_nopos r p n l hr hp hs hn hy hpos h x hx hge hle hxy
+  · exact fillDly_complete_nopos r p n l hr hp hn hy hpos h x hx hge hle hxy
   · cases hcap : capNti r n with
     | none =>
       rw [fillDly_none r p n hr hp hcap] at h
@@ -170,6 +172,13 @@ theorem fillDly_complete (r : Rule) (p : Inst) (n : Nat) (l : List Inst) (hr : W
     | some nti =>
       have hc : capOf r n = nti := by unfold capOf; rw [hcap]; rfl
       rw [hc]
-      exact dly_pos_complete r p n nti l hr hp hs hy (hf hpos) hpos hcap h x hx hsp hge hle hxy
+      exact dly_pos_complete r p n nti l hr hp hy (hf hpos) hpos hcap h x hx hsp hge hle hxy
+
+/-- FREQ=DAILY;BYHOUR=9 on the DATE seed 2020-01-01: BYHOUR is ignored (RFC 5545, 3.3.10), the days themselves come out
+(before the repair of `make_enum`: 2020-01-01T09:00:00, …, instants not of the seed's kind) -/
+theorem fillDly_date_seed_byhour :
+    fillDly { freq := 4, H := [9] } { y := 2020, m := 1, d := 1, H := 255, M := 0, S := 0, ms := 0 } 2 =
+    some [{ y := 2020, m := 1, d := 1, H := 255, M := 0, S := 0, ms := 0 },
+          { y := 2020, m := 1, d := 2, H := 255, M := 0, S := 0, ms := 0 }] := by decide +kernel
 
 end Echse.Lemmas.RrDlyRfc
